@@ -1,0 +1,81 @@
+//go:build verif
+
+package index
+
+import (
+	"bytes"
+	"fmt"
+
+	"github.com/sourcegraph/zoekt"
+	"github.com/sourcegraph/zoekt/query"
+)
+
+// VerifMergeToBytes is Merge without the file system: it merges the given shards with the unexported merge and
+// returns the serialised compound shard. Verification hook; not part of the normal build.
+func VerifMergeToBytes(files ...IndexFile) ([]byte, error) {
+	var ds []*indexData
+	for _, f := range files {
+		searcher, err := NewSearcher(f)
+		if err != nil {
+			return nil, err
+		}
+		ds = append(ds, searcher.(*indexData))
+	}
+	sb, err := merge(ds...)
+	if err != nil {
+		return nil, err
+	}
+	var buf bytes.Buffer
+	if err := sb.Write(&buf); err != nil {
+		return nil, err
+	}
+	return buf.Bytes(), nil
+}
+
+// VerifSimplifyKind reports what indexData.simplify makes of q on this shard: "true", "false" (constant
+// queries) or "other".
+func VerifSimplifyKind(s zoekt.Searcher, q query.Q) (string, error) {
+	d, ok := s.(*indexData)
+	if !ok {
+		return "", fmt.Errorf("not a shard searcher: %T", s)
+	}
+	if c, ok := d.simplify(q).(*query.Const); ok {
+		if c.Value {
+			return "true", nil
+		}
+		return "false", nil
+	}
+	return "other", nil
+}
+
+// VerifShardRepos returns the repository metadata of a shard in shard order (the order of repository indices).
+func VerifShardRepos(s zoekt.Searcher) ([]zoekt.Repository, error) {
+	d, ok := s.(*indexData)
+	if !ok {
+		return nil, fmt.Errorf("not a shard searcher: %T", s)
+	}
+	return append([]zoekt.Repository(nil), d.repoMetaData...), nil
+}
+
+// VerifShardDocRepos returns, for every document of the shard, the index of its repository.
+func VerifShardDocRepos(s zoekt.Searcher) ([]uint16, error) {
+	d, ok := s.(*indexData)
+	if !ok {
+		return nil, fmt.Errorf("not a shard searcher: %T", s)
+	}
+	return append([]uint16(nil), d.repos...), nil
+}
+
+// VerifSetShardTombstone marks repository i of an in-memory shard as tombstoned (what loading a shard whose
+// .meta sidecar carries Tombstone=true produces).
+func VerifSetShardTombstone(s zoekt.Searcher, i int, tomb bool) error {
+	d, ok := s.(*indexData)
+	if !ok {
+		return fmt.Errorf("not a shard searcher: %T", s)
+	}
+	if i < 0 || i >= len(d.repoMetaData) {
+		return fmt.Errorf("repository index %d out of range", i)
+	}
+	d.repoMetaData[i].Tombstone = tomb
+	return nil
+}
